@@ -703,6 +703,8 @@ class SamplingMethod(DirectMethod):
         # Only the states are available as polynomials: anything else that moves within the interval cannot be certified
         if ca.depends_on(c, vertcat(stage.xq, stage.z)):
             raise Exception("A grid='inf' constraint may not depend on quadrature states or algebraic variables.")
+        if ca.depends_on(c, vvcat(stage._signals.keys())):
+            raise Exception("A grid='inf' constraint may not depend on B-spline signals (grid='bspline'): they move within the interval but are not part of the step polynomial.")
         # The relation is imposed on the coefficient vector of ONE polynomial: a vector-valued constraint would be paired with it entry by entry
         if not c.is_scalar():
             raise Exception("A grid='inf' constraint must be scalar-valued (got shape " + str(c.shape) + "): declare one constraint per component.")
